@@ -22,7 +22,7 @@ PROPS['C11'] = dict(
                  'carriers may or may not react to CC74, the percussion channel may or may not honour CC74 (statement silent): accepted, recorded in monitor_counters',
                  'with modulator scaling on or CC74 < 127 nothing but range and brightness-monotonicity is required of modulators'],
     stages=[
-        dict(name='cube', variant='asan', harness='c11_volume.cpp', quick=200, thorough=640, budget=300, opts=dict(reps=4)),
-        dict(name='config', variant='asan', harness='c11_volume.cpp', quick=640, thorough=1280, budget=300, opts=dict(reps=4)),
+        dict(name='cube', variant='asan', harness='c11_volume.cpp', quick=640, thorough=640, budget=300, opts=dict(reps=4)),
+        dict(name='config', variant='asan', harness='c11_volume.cpp', quick=1280, thorough=1280, budget=300, opts=dict(reps=4)),
     ],
 )
